@@ -581,6 +581,21 @@ acquire_stop(struct AcquireRuntime* self_)
                 TRACE("[stream: %d] Monitor flushed %llu bytes", i, nbytes);
             } while (nbytes);
         }
+
+        // A sink that exited on a storage error leaves the frames it never
+        // consumed in its queue. The sink thread has been joined, so discard
+        // them here; otherwise they get written to storage at the start of
+        // the next acquisition.
+        if (video->sink.reader.id) {
+            size_t nbytes;
+            do {
+                struct slice slice =
+                  channel_read_map(&video->sink.in, &video->sink.reader);
+                nbytes = slice_size_bytes(&slice);
+                channel_read_unmap(
+                  &video->sink.in, &video->sink.reader, nbytes);
+            } while (nbytes);
+        }
     }
     self->state = DeviceState_Armed;
 
